@@ -322,6 +322,12 @@ func unmarshalUnknownValue(dec *msgpack.Decoder, ty cty.Type, path cty.Path) (re
 			default:
 				panic("unsupported keyCode") // should not get here
 			}
+		default:
+			// Keys we do not know are ignored to allow for future expansion,
+			// which means skipping their value too.
+			if err := rfnDec.Skip(); err != nil {
+				return cty.DynamicVal, path.NewErrorf("failed to decode msgpack extension body: %s", err)
+			}
 		}
 	}
 
